@@ -13,9 +13,44 @@ pub struct Counting;
 static CUR: AtomicUsize = AtomicUsize::new(0);
 static PEAK: AtomicUsize = AtomicUsize::new(0);
 static BIGGEST: AtomicUsize = AtomicUsize::new(0);
+// ---- rule-address recycling (C06) ---------------------------------------------------------------
+// The engine keys its compiled-regex cache by the ADDRESS of a rule (an Arc<NetworkFilter>).  Whether a rule
+// allocated later lands on the address of a rule freed earlier is up to the allocator; glibc's does so only
+// now and then.  This allocator is the least forgiving one the engine may meet: a block of exactly the size
+// of a shared rule is kept on a last-in-first-out stack when freed and handed to the next request of that
+// size, so that a cache entry that outlives its rule IS found again by the next rule allocated.
+const RULE_ARC: usize = std::mem::size_of::<adblock::filters::network::NetworkFilter>() + 2 * std::mem::size_of::<usize>();
+const SLOTS: usize = 1 << 15;
+static LOCK: std::sync::atomic::AtomicBool = std::sync::atomic::AtomicBool::new(false);
+static mut STACK: [usize; SLOTS] = [0; SLOTS];
+static mut TOP: usize = 0;
+pub static RECYCLED: AtomicUsize = AtomicUsize::new(0);
+#[inline]
+fn is_rule(l: &Layout) -> bool {
+    l.size() == RULE_ARC && l.align() == std::mem::align_of::<usize>()
+}
+#[inline]
+unsafe fn with_stack<R>(f: impl FnOnce(&mut [usize; SLOTS], &mut usize) -> R) -> R {
+    while LOCK.compare_exchange_weak(false, true, Ordering::Acquire, Ordering::Relaxed).is_err() {
+        std::hint::spin_loop();
+    }
+    let r = f(&mut *std::ptr::addr_of_mut!(STACK), &mut *std::ptr::addr_of_mut!(TOP));
+    LOCK.store(false, Ordering::Release);
+    r
+}
+
 unsafe impl GlobalAlloc for Counting {
     unsafe fn alloc(&self, l: Layout) -> *mut u8 {
-        let p = System.alloc(l);
+        let mut p = std::ptr::null_mut();
+        if is_rule(&l) {
+            p = with_stack(|st, top| if *top > 0 { *top -= 1; st[*top] as *mut u8 } else { std::ptr::null_mut() });
+            if !p.is_null() {
+                RECYCLED.fetch_add(1, Ordering::Relaxed);
+            }
+        }
+        if p.is_null() {
+            p = System.alloc(l);
+        }
         if !p.is_null() {
             let c = CUR.fetch_add(l.size(), Ordering::Relaxed) + l.size();
             PEAK.fetch_max(c, Ordering::Relaxed);
@@ -25,9 +60,22 @@ unsafe impl GlobalAlloc for Counting {
     }
     unsafe fn dealloc(&self, p: *mut u8, l: Layout) {
         CUR.fetch_sub(l.size(), Ordering::Relaxed);
+        if is_rule(&l) && with_stack(|st, top| if *top < SLOTS { st[*top] = p as usize; *top += 1; true } else { false }) {
+            return;
+        }
         System.dealloc(p, l)
     }
     unsafe fn realloc(&self, p: *mut u8, l: Layout, n: usize) -> *mut u8 {
+        if is_rule(&l) || (n == RULE_ARC && l.align() == std::mem::align_of::<usize>()) {
+            // keep the recycling stack consistent: move by hand
+            let nl = Layout::from_size_align_unchecked(n, l.align());
+            let q = self.alloc(nl);
+            if !q.is_null() {
+                std::ptr::copy_nonoverlapping(p, q, l.size().min(n));
+                self.dealloc(p, l);
+            }
+            return q;
+        }
         let q = System.realloc(p, l, n);
         if !q.is_null() {
             if n >= l.size() {
